@@ -885,8 +885,13 @@ func c34Classes(c c34Cfg, o c34Outcome) []string {
 	return cl
 }
 
-func TestC34(t *testing.T) {
-	st := pbt.NewStats("TestC34")
+func TestC34(t *testing.T) { testC34(t, "TestC34") }
+
+// TestC34Parallel: the same property with several Ps (GOMAXPROCS=4).
+func TestC34Parallel(t *testing.T) { testC34(t, "TestC34Parallel") }
+
+func testC34(t *testing.T, name string) {
+	st := pbt.NewStats(name)
 	defer st.Flush()
 	skipShort, skipLong, skipTail := pbt.Known("C34", sigShort), pbt.Known("C34", sigLong), pbt.Known("C34", sigTail)
 	rapid.Check(t, func(t *rapid.T) {
